@@ -305,6 +305,7 @@ def gen_context_file(rng):
     nctx = rng.randint(2, 4)
     redefinable = [c for c, t in g.units.items() if t["kind"] == "mult" and t["factor"] > 0
                    and all(F(v).denominator == 1 for v in t["root"].values()) and t["root"]]
+    redefined = []
     for ci in range(nctx):
         name = f"CT{ci}"
         has_p = rng.random() < 0.7
@@ -342,8 +343,11 @@ def gen_context_file(rng):
             sb = alias_of[b] if b in alias_of and rng.random() < 0.4 else b
             body.append(f"    {sa} {arrow} {sb}: {eq}")
             recipe["rules"].append((sa, sb, arrow == "<->", form if not (form == 2 and not has_p) else 3, k, ua, ub))
-        if redefinable and rng.random() < 0.4:
-            u = rng.choice(redefinable)
+        if redefinable and rng.random() < 0.55:
+            # often the SAME unit as an earlier context, with another value: stacking the two in either
+            # order must let the most recently enabled one win
+            u = rng.choice(redefined) if redefined and rng.random() < 0.6 else rng.choice(redefinable)
+            redefined.append(u)
             t = g.units[u]
             expr = " * ".join(f"{r} ** {int(e)}" if e > 0 else f"{r} ** ({int(e)})" for r, e in t["root"].items())
             body.append(f"    {u} = {rng.randint(2, 9)} / {rng.randint(2, 9)} * {expr}")
@@ -440,6 +444,13 @@ def run_generated(spec, rec, rng, pint, R, CM):
             ua, ub = rng.choice(pools[a]), rng.choice(pools[b])
             if rng.random() < 0.15:
                 ub = rng.choice(allunits)
+            redef_units = [ln.split("=")[0].strip() for n, _, _ in entries for ln in m.contexts[n]["redefs"]]
+            if redef_units and rng.random() < 0.35:
+                # ask about a unit the active contexts redefine (possibly several of them, differently)
+                if rng.random() < 0.5:
+                    ub = rng.choice(redef_units)
+                else:
+                    ua = rng.choice(redef_units)
             x = F(rng.randint(1, 999), rng.choice((1, 2, 5)))
             cands = set()
             try:
@@ -503,3 +514,56 @@ def run_generated(spec, rec, rng, pint, R, CM):
             if case == 0 and gi == 0:
                 rec.sample({"contexts": text[text.find("@context"):][:600], "entries": str(entries), "form": form,
                             "src": f"{x} {ua}", "dst": ub, "got": repr(got)[:80]})
+        order_flips(rec, pint, ureg, m, CM, ctxs, text, built, rng)
+
+
+def order_flips(rec, pint, ureg, m, CM, ctxs, text, built, rng):
+    """Two contexts that redefine the SAME unit differently, stacked in one order, then the other, then the
+    first again on the same registry: the most recently enabled one must win every time."""
+    redef = {}
+    for name, alias, has_p, pdef in ctxs:
+        for ln in m.contexts[name]["redefs"]:
+            redef.setdefault(ln.split("=")[0].strip(), []).append((name, alias))
+    done = 0
+    for u, owners in sorted(redef.items()):
+        owners = list(dict.fromkeys(owners))
+        if len(owners) < 2 or done >= 3:
+            continue
+        done += 1
+        c1, c2 = owners[0], owners[1]
+        root = {k: F(v) for k, v in m.root(u)[1].items()}
+        x = F(rng.randint(1, 99))
+        for order in ((c1, c2), (c2, c1), (c1, c2), (c2, c1)):
+            form = rng.choice(("single-call", "with-nested", "enable", "to-call"))
+            names = [n for n, _ in order]
+            stack = [CM.ActiveCtx(n, {k: F(v) for k, v in m.contexts[n]["defaults"].items()}) for n in names]
+            try:
+                cands = CM.convert_candidates(m, stack, x, {u: F(1)}, root)
+            except KeyError:
+                continue
+            q = ureg.Quantity(x, u)
+            dst = ureg.UnitsContainer({k: int(v) if v == int(v) else v for k, v in root.items()})
+
+            def run():
+                if form == "single-call":
+                    with ureg.context(*names):
+                        return q.to(dst)
+                if form == "to-call":
+                    return q.to(dst, *names)
+                if form == "enable":
+                    for n in names:
+                        ureg.enable_contexts(n)
+                    try:
+                        return q.to(dst)
+                    finally:
+                        ureg.disable_contexts(len(names))
+                with ureg.context(names[0]):
+                    with ureg.context(names[1]):
+                        return q.to(dst)
+            got = attempt(pint, run)
+            rec.count("order_flip_conversions")
+            rec.case(("flip", text[:40], u, tuple(names), form), nontrivial=True)
+            w = {"text": text, "entries": names, "form": form, "src": f"{x} {u}", "dst": str(root)}
+            judge(rec, pint, got, cands if cands != "dimerr" else "dimerr", w,
+                  dict(context="generated", form=form, workload="order-flip", redefinition=True, depth=2, built=built),
+                  False)
